@@ -7,6 +7,7 @@
 package vsym
 
 import (
+	"crypto/sha256"
 	"encoding/json"
 	"fmt"
 	"os"
@@ -164,3 +165,12 @@ func HasPrefix(s, p string) bool { return strings.HasPrefix(s, p) }
 
 // Contains is strings.Contains (usable in specifications without forking).
 func Contains(s, sub string) bool { return strings.Contains(s, sub) }
+
+// AsString returns the string whose bytes p holds, when p is []byte(s).
+func AsString(p []byte) (string, bool) { return string(p), true }
+
+// DigestOf returns the (modelled, injective) sha256 digest of the bytes of s.
+func DigestOf(s string) []byte { d := sha256.Sum256([]byte(s)); return d[:] }
+
+// HasSuffix is strings.HasSuffix (usable in specifications without forking).
+func HasSuffix(s, p string) bool { return strings.HasSuffix(s, p) }
